@@ -50,6 +50,8 @@ fn main() {
             let oracle_every = match stream {
                 "twide" => 53,
                 "dwide" => 211,
+                "thash" => 1009,
+                "tbig" => 499,
                 "tlong" => 4099,
                 "trand" if thorough => 7,
                 _ => 1,
@@ -106,6 +108,8 @@ fn main() {
                 "dwide" => dwide(&mut g, &mut r, if thorough { 12 } else { 1 }, if thorough { 900 } else { 300 }),
                 "tkeylen" => tkeylen(&mut g, &mut r, if thorough { 6000 } else { 400 }),
                 "dnear" => dnear(&mut g, &mut r, if thorough { 1 << 21 } else { 1 << 18 }),
+                "thash" => thash(&mut g, &mut r, shard, if thorough { 300_000 } else { 70_000 }),
+                "tbig" => tbig(&mut g, &mut r, shard, if thorough { 20_000 } else { 4_000 }),
                 "tmid" => tmid(&mut g, &mut r, if thorough { 40000 } else { 2500 }),
                 "dsmall" => {
                     exhaustive = true;
@@ -131,6 +135,7 @@ fn main() {
                 "lrand" => {
                     lrand(&mut g, &mut r, if thorough { 20000 } else { 1500 }, if thorough { 300 } else { 40 });
                     lmut(&mut g, &mut r, if thorough { 5000 } else { 400 }, if thorough { 60 } else { 24 });
+                    llong(&mut g, &mut r, if thorough { 40 } else { 3 });
                 }
                 "tcfg" => {
                     if thorough {
